@@ -87,7 +87,9 @@ func sortNPMVersions(vs []Version) {
 		} else {
 			allPrerelease = false
 		}
-		if tags, _ := v.GetAttr(version.Tags); strings.Contains(tags, "latest") {
+		// Look for the tag itself, not for its text: other tags may contain
+		// it ("latest-2", "notlatest").
+		if tags, _ := v.GetAttr(version.Tags); slices.Contains(strings.Split(tags, ","), "latest") {
 			latestIdx = i
 			latestIsPrerelease = vers[v.VersionKey] != nil && vers[v.VersionKey].IsPrerelease()
 		}
